@@ -60,6 +60,8 @@ func (backRR *BackendRR) Init(subClusterName string, conf *cluster_table_conf.Ba
 
 func (backRR *BackendRR) UpdateWeight(weight int) {
 	backRR.weight = weight * 100
+	// slow-start should ramp up to the updated weight
+	backRR.weightSS.final = backRR.weight
 
 	// if weight > 0, don't touch backRR.current
 	if weight <= 0 {
